@@ -106,6 +106,20 @@ func TestC14(t *testing.T) {
 				"x = {a: t1(), b: t2(), a: t3()};\n" + P + " x.b;\n",
 				"x = {a: t1(), a: t2(), a: t3()};\n" + P + " \"built\";\n",
 				P + " [{k: t1()}, [t2()], {k: [t3()]}];\n",
+				// operations that fail once their operands have been evaluated: every operand still runs, in order, first
+				P + " id2(t1(), t2(), t3());\n",
+				P + " id3(t1(), t2());\n" + P + " t3();\n",
+				P + " 5(t1(), t2(), t3());\n",
+				P + " t1()(t2(), t3());\n",
+				P + " " + bn.BLen + "(t1(), t2());\n" + P + " t3();\n",
+				P + " " + bn.BPush + "(t1());\n" + P + " t2();\n",
+				P + " " + bn.BAbs + "(t1(), t2(), t3());\n",
+				"(t1()).k = t2();\n" + P + " t3();\n",
+				"nil.k = t1();\n" + P + " t2();\n",
+				"(t1())[t2()] = t3();\n",
+				P + " (t1())[t2()];\n" + P + " t3();\n",
+				P + " (t1()).k;\n" + P + " t2();\n",
+				"obj.k = id2(t1());\n" + P + " t2();\n",
 				"x = {p: t1(), q: t2(), r: t3()};\n" + P + " x.p;\n" + P + " x.r;\n",
 				P + " id3(t1(), t2(), t3());\n",
 				bn.KwVar + " va = t1(), vb = t2(), vc = t3();\n" + P + " vc;\n",
